@@ -36,6 +36,9 @@ FRAGMENTS = ['{', '}', '[', ']', '$', '$$', '\\[', '\\]', '\\(', '\\)', '&', '\\
              '\\begin{itemize}' + '\\item ' * 60, '$x$ ' * 15, '\\[a\\] ' * 10, '\\footnote{a}' * 12, '{' * 40 + 'x' + '}' * 40,
              # a parameter character followed by digits that are no decimal digits
              '#\u00b2', '#\u2460', '#\u2081', '#\u0663', '#\uff12', '\\def\\x#\u00b9{#\u00b9}', '\\newcommand{\\x}[1]{#\u00b3}\\x{a}',
+             # an accent whose argument begins with a language switch
+             '\\"{\\foreignlanguage{german}{o}}', "\\'\\foreignlanguage{french}{e}", '\\"{\\selectlanguage{french}i}',
+             '\\^{\\begin{otherlanguage}{german}o\\end{otherlanguage}}', '\\usepackage{babel}\\c{\\foreignlanguage{russian}{c}}',
              # keys given without a value
              '\\newglossaryentry{x}{name=a, description}', '\\newglossaryentry{x}{description,name={a}}\\gls{x}',
              '\\gls@defglossaryentry{x}{name,text,plural,first,description}\\gls{x} \\Glspl{x} \\glsdesc{x} \\GLS{x}',
